@@ -40,11 +40,13 @@ template <typename Char_T> struct SymValue {
     Qentem::SizeT Length() const noexcept { return is_string ? text_len : Qentem::SizeT{0}; }
 };
 // what the real Value guarantees about these answers:
-//   a genuine number converts to itself and has no text; a string has text; only text-bearing kinds can be strings
+//   a genuine number converts to itself and has no text; a string has text; only text-bearing kinds can be strings;
+//   a non-number that converts to a number (true / false / null / numeric text) has text
 template <typename Char_T> inline bool sym_value_consistent(const SymValue<Char_T> &v) {
     const unsigned n = unsigned(v.ntype), s = unsigned(v.stype);
     if (n > 3 || s > 3) return false;
     if (n != 0) return (s == n) && !v.has_text && !v.is_string;
     if (v.is_string && !v.has_text) return false;
+    if (s != 0 && !v.has_text) return false;          // what converts to a number without being one (true/false/null/numeric text) has text
     return true;
 }
